@@ -456,6 +456,10 @@ def body_proj_init(E, n, num_pts, num_directions):
 def harnesses(tier, seed):
     hs = []
     cfg = core.Cfg(qtimeout_ms=20000)
+    # packaging of the result (un-scaling, merge of restarted runs) for every way a run can end - also before any model exists (no Jacobian):
+    # solve returns a result object and does not raise
+    from .. import outer
+    hs += [h for h in outer.outer_harnesses(tier, seed, 'C07') if 'scaling=1' in h.name or tier != 'quick']
     for (n_, npt_, nd_) in ((1, 2, 1), (2, 3, 2), (2, 5, 4), (2, 3, 1)):
         hs.append(Harness("proj-init[n=%d,npt=%d,ndirs=%d]" % (n_, npt_, nd_), 'dfverif.checks.c07', 'body_proj_init',
                           params=dict(n=n_, num_pts=npt_, num_directions=nd_), cfg=core.Cfg(qtimeout_ms=20000, uflin=True),
